@@ -152,6 +152,19 @@ CLAIMED = {
             "(jiff documents that surplus fields are ignored), a 12-hour clock without AM/PM, %s followed by other "
             "field-setting directives. Known finding D28 (%A cannot parse \"Tuesday\") is listed in KNOWN_FINDINGS.txt.",
             "TLA+ strftime/strptime/RFC 2822 spec evaluated by TLC over implementation traces", "DESIGN.md §5 C16"),
+    "C17": ("exploration",
+            "Totality cannot be exhausted; it is explored. Mutate.tla specifies the mutation language of the property's "
+            "quantifier (14 grammar-aware operators x position x variant); TLC enumerates all 504 one-step plans and samples "
+            "three-step plans, which the harness applies to valid texts of every grammar and to TZif files, next to seeded "
+            "longer plans, random bytes, a sweep of every strptime directive letter x flag x width over boundary texts, "
+            "long inputs and structure-aware TZif mutations. Trace_Parse.tla decides every observation: no panic or hang, "
+            "Ok values inside the documented ranges (recomputed from Calendar/Instant/CivilArith), print + re-parse equal, "
+            "accepted zones answer every query with in-range offsets, time per KiB bounded, jiff and its jiff-static copy "
+            "agree on accepting TZif data.",
+            "Exploration: inputs are sampled, not exhausted. Non-termination is detected by a watchdog (20 s without "
+            "progress). The time bound uses wall-clock time with a wide margin (5 ms per KiB). Sub-minute offsets cannot "
+            "come back from RFC 3339 text (printed to the minute) and are compared to the minute.",
+            "TLC-generated mutation plans replayed on the implementation + trace validation of the observations", "DESIGN.md §5 C17"),
 }
 
 PENDING_REASON = "check not built yet in this round (planned, see DESIGN.md §5); no claim is made"
